@@ -53,4 +53,27 @@ theorem mem_filter_of (p : Method → Bool) (l r : List Method) (h : l.filter p 
     m ∈ r := by
   rw [← h]; exact List.mem_filter.mpr ⟨hm, hp⟩
 
+/-- Impl ⊑ Spec for the reading of a variable: sense.EnvBool is the documented reading, for every value. -/
+theorem envBool_eq_envOn (v : Option String) : envBool v = envOn v := by
+  cases v with
+  | none => rfl
+  | some x =>
+    simp only [envBool, envOn, boolString]
+    generalize x.toLower = l
+    by_cases h0 : l = ""
+    · simp [h0]
+    · have hne : (l != "") = true := by simp [h0]
+      by_cases ht : l ∈ truthyWords
+      · have hf : l ∉ falsyWords := by
+          simp only [truthyWords, List.mem_cons, List.mem_nil_iff, or_false] at ht
+          rcases ht with h | h | h | h | h | h <;> rw [h] <;> decide
+        have ht' : l ∈ truthyWords := ht
+        simp [h0, ht', hf]
+      · by_cases hf : l ∈ falsyWords
+        · simp [h0, ht, hf]
+        · simp [h0, ht, hf]
+
+theorem optedIn_read (r : RawEnv) (t : Transport) : optedIn r.read t = optedInRaw r t := by
+  cases t <;> simp [optedIn, optedInRaw, designated, RawEnv.read, RawEnv.get, Env.get, envBool_eq_envOn]
+
 end Aqv.Lemmas.Rpc
